@@ -120,7 +120,28 @@ def gen_case(rng):
     args = []
     body = []
     for i in range(nbuf):
-        kind = rng.choice(["arg", "arg", "alloc", "global", "gsub", "const"])
+        kind = rng.choice(["arg", "arg", "alloc", "global", "gsub", "const", "asub"])
+        if kind == "asub":
+            # a writable block of a larger function argument (its own argument: blocks of different buffers never overlap)
+            mult = rng.choice([2, 2, 4])
+            j = rng.randrange(mult)
+            if len(shape) == 1:
+                gshape, offs = [shape[0] * mult], [j * shape[0]]
+                st_txt = f"strided<[1], offset: {offs[0]}>"
+            elif rng.random() < 0.5:
+                gshape, offs = [shape[0] * mult, shape[1]], [j * shape[0], 0]
+                st_txt = f"strided<[{gshape[1]}, 1], offset: {offs[0] * gshape[1]}>"
+            else:
+                gshape, offs = [shape[0], shape[1] * mult], [0, j * shape[1]]
+                st_txt = f"strided<[{gshape[1]}, 1], offset: {offs[1]}>"
+            GT = f"memref<{'x'.join(map(str, gshape))}xi32>"
+            ST = f"memref<{dims}xi32, {st_txt}>"
+            args.append(f"%big{i}: {GT}")
+            body.append(
+                f"    %a{i} = memref.subview %big{i}[{', '.join(map(str, offs))}] [{', '.join(map(str, shape))}] [{', '.join(['1'] * len(shape))}] : {GT} to {ST}"
+            )
+            bufs.append({"name": f"%a{i}", "kind": "asub", "ro": False, "type": ST})
+            continue
         if kind == "gsub":
             # a block of a larger read-only global, taken by a static subview that is the global's only user
             mult = rng.choice([2, 2, 4])
@@ -254,8 +275,9 @@ def gen_case(rng):
             skel.append("t" + str(bufs.index(b)))
     ret = ""
     rett = ""
-    if rng.random() < 0.2:
-        b = rng.choice([x for x in bufs if "type" not in x])
+    plain = [x for x in bufs if "type" not in x]
+    if rng.random() < 0.2 and plain:
+        b = rng.choice(plain)
         ret, rett = b["name"], T
     text = (
         "builtin.module {\n"
